@@ -226,6 +226,16 @@ class SSeq:
         return f"SSeq({self.base}, maps={len(self.maps)})"
 
 
+class SFiltered:
+    """{image(x) for x in seq if keep(x)} over a collection of symbolic length (set / list comprehension with a condition)"""
+
+    def __init__(self, seq, keep, image, kind="SetComp"):
+        self.seq, self.keep, self.image, self.kind = seq, keep, image, kind
+
+    def __repr__(self):
+        return f"SFiltered({self.seq})"
+
+
 class SDictItems:
     """d.items() of a dict with a symbolic remainder (only usable as the iterable of a for loop)"""
 
@@ -2107,7 +2117,41 @@ class Interp:
     def e_GeneratorExp(self, node, fr):
         return SList(self._comp(node, fr, lambda f: self.eval(node.elt, f)))
 
+    def _filtered_comp(self, node, fr):
+        """{f(x) for x in <collection of symbolic length> if c(x)}: kept lazily as (collection, element function, keep
+        predicate); `keep` must be a formula over the element (no forking conditions)"""
+        if len(node.generators) != 1 or not node.generators[0].ifs:
+            return None
+        g = node.generators[0]
+        it = self.eval(g.iter, fr)
+        if isinstance(it, SV):
+            it = self.view(it)
+        if not isinstance(it, SSeq):
+            return None
+        snapshot = dict(fr.locals)
+
+        def frame_for(e):
+            f2 = Frame(fr.module, dict(snapshot), fr.qualname, fr.cls)
+            f2.local_names = getattr(fr, "local_names", ())
+            self.assign(g.target, e, f2)
+            return f2
+
+        def keep(e):
+            f2 = frame_for(e)
+            conds = []
+            for c in g.ifs:
+                t = self.truth(self.eval(c, f2))
+                conds.append(z3.BoolVal(t) if isinstance(t, bool) else t)
+            return z3.And(*conds)
+
+        def image(e):
+            return self.eval(node.elt, frame_for(e))
+        return SFiltered(it, keep, image, kind=type(node).__name__)
+
     def e_SetComp(self, node, fr):
+        flt = self._filtered_comp(node, fr)
+        if flt is not None:
+            return flt
         return SSet([self.hashable(x) for x in self._comp(node, fr, lambda f: self.eval(node.elt, f))])
 
     def e_DictComp(self, node, fr):
